@@ -20,6 +20,22 @@ CHECKS = {
         note="Trusted: ref/llcp_codec.py (independent reading of LLCP 1.3); "
              "byte strings longer than 3 octets are an enumerated grammar, not "
              "all strings."),
+    'C09': dict(
+        category='model_checking', design='2/C09',
+        technique="stateless schedule exploration of the real code under a "
+                  "controlled scheduler, preemption/timer-deviation bounded, "
+                  "with deadlock detection",
+        text="Real connect(llcp=...) and LogicalLinkController.run in virtual "
+             "threads against a scripted LLCP peer; for every scenario (role x "
+             "cause of link end x exchange index x blocking socket call, calls "
+             "issued while/after the link ends, SNEP/handover server threads) "
+             "every schedule with <= 1 (thorough 2) deviations is executed; "
+             "after the link ended every thread must finish with a value or "
+             "nfc.llcp.Error and connect() must return.",
+        note="Scheduling points are lock/condition/IO/sleep operations plus "
+             "the traced unsynchronised fields listed in the evidence, not "
+             "arbitrary bytecodes; the peer is sim/peer.py; 1-2 application "
+             "threads."),
 }
 
 NOT_YET = "check not built yet in this round (see DESIGN.md section 2 for the planned design)"
